@@ -835,8 +835,8 @@ package stack
 //@   update after-call append#1: at[f] := len(out)
 //@   update after-call sort.Strings#1: at := lambda k :: sperm[at[k]]
 //@   ensures [filesStrictlyAscending C06 C18] forall i, j :: 0 <= i && i < j && j < len(result) ==> result[i] < result[j]
-//@   ensures [filesComplete C06 C18] forall g, c :: 0 <= g && g < len(goroutines) && 0 <= c && c < len(goroutines[g].Stack.Calls) ==> 0 <= at[goroutines[g].Stack.Calls[c].RemoteSrcPath] && at[goroutines[g].Stack.Calls[c].RemoteSrcPath] < len(result) && result[at[goroutines[g].Stack.Calls[c].RemoteSrcPath]] == goroutines[g].Stack.Calls[c].RemoteSrcPath
-//@   ensures [filesSound C06 C18] forall i :: 0 <= i && i < len(result) ==> 0 <= wg[result[i]] && wg[result[i]] < len(goroutines) && 0 <= wc[result[i]] && wc[result[i]] < len(goroutines[wg[result[i]]].Stack.Calls) && goroutines[wg[result[i]]].Stack.Calls[wc[result[i]]].RemoteSrcPath == result[i]
+//@   at-return [filesComplete C06 C18] forall g, c :: 0 <= g && g < len(goroutines) && 0 <= c && c < len(goroutines[g].Stack.Calls) ==> 0 <= at[goroutines[g].Stack.Calls[c].RemoteSrcPath] && at[goroutines[g].Stack.Calls[c].RemoteSrcPath] < len(result) && result[at[goroutines[g].Stack.Calls[c].RemoteSrcPath]] == goroutines[g].Stack.Calls[c].RemoteSrcPath
+//@   at-return [filesSound C06 C18] forall i :: 0 <= i && i < len(result) ==> 0 <= wg[result[i]] && wg[result[i]] < len(goroutines) && 0 <= wc[result[i]] && wc[result[i]] < len(goroutines[wg[result[i]]].Stack.Calls) && goroutines[wg[result[i]]].Stack.Calls[wc[result[i]]].RemoteSrcPath == result[i]
 //@   loop 0: invariant -1 <= rangeindex && files != nil && fresh(files) && len(files) >= 0 && (len(files) == 0 ==> forall k string :: !dom(files, k))
 //@   loop 0: invariant forall g, c :: 0 <= g && g <= rangeindex && 0 <= c && c < len(goroutines[g].Stack.Calls) ==> dom(files, goroutines[g].Stack.Calls[c].RemoteSrcPath)
 //@   loop 0: invariant [witnesses] forall k string :: dom(files, k) ==> 0 <= wg[k] && wg[k] < len(goroutines) && 0 <= wc[k] && wc[k] < len(goroutines[wg[k]].Stack.Calls) && goroutines[wg[k]].Stack.Calls[wc[k]].RemoteSrcPath == k
@@ -952,3 +952,26 @@ package stack
 //@   at-return [distinctValuesDistinctNames C15 uses=distinctNumbersDistinctNames needs=ascendingAddressOrder+primaryFirst] forall x uint64, y uint64 :: (dom(objects, x) && (objects[x].inPrimary ? len(objects[x].args) > 1 : true)) && (dom(objects, y) && (objects[y].inPrimary ? len(objects[y].args) > 1 : true)) && x != y ==> numName(num[x]) != numName(num[y])
 //@   at-return [unnamedKeepTheirName C15] forall x uint64, j int, a *Arg :: dom(objects, x) && 0 <= j && j < len(objects[x].args) && a == objects[x].args[j] && !(dom(objects, x) && (objects[x].inPrimary ? len(objects[x].args) > 1 : true)) ==> a.Name == old(a.Name)
 //@   ensures [nonPointersNeverNamed C15] (forall a *Arg :: !a.IsPtr ==> a.Name == old(a.Name))
+
+// ---- context.go: root detection (C03, C18) ----------------------------------------
+// Only memory safety and the frame are stated for the disk-probing helpers; what
+// findRoots promises about the roots it records is stated on findRoots.
+//@ func splitPath
+//@   modifies nothing
+//@ func isFile
+//@   modifies nothing
+//@ func isRootedIn
+//@   modifies nothing
+//@   loop 0: invariant 1 <= i
+//@   loop 0: decreases len(parts) - i
+//@ func (*gomodCache).isGoModule
+//@   requires g != nil && *g != nil
+//@   modifies mapof(*g)
+//@   loop 0: invariant i <= len(parts) && *g != nil
+//@   loop 0: decreases i
+//@ func (*Snapshot).findRoots
+//@   requires s != nil && forall g :: 0 <= g && g < len(s.Goroutines) ==> s.Goroutines[g] != nil
+//@   modifies Snapshot.RemoteGOROOT, Snapshot.RemoteGOPATHs, Snapshot.LocalGomods at s
+//@   ensures [rootMapsAllocated C18] s.RemoteGOPATHs != nil && s.LocalGomods != nil && fresh(s.RemoteGOPATHs) && fresh(s.LocalGomods)
+//@   loop 0: invariant -1 <= rangeindex && s.RemoteGOPATHs != nil && s.LocalGomods != nil && fresh(s.RemoteGOPATHs) && fresh(s.LocalGomods) && gmc != nil && fresh(gmc)
+//@   loop 1: invariant -1 <= rangeindex#2 && s.RemoteGOPATHs != nil && s.LocalGomods != nil && fresh(s.RemoteGOPATHs) && fresh(s.LocalGomods) && gmc != nil && fresh(gmc)
